@@ -46,6 +46,10 @@ const (
 	DoubleNewLine = "\r\n\r\n"
 )
 
+// mimePGP is the key under which the boundary of the PGP/MIME multipart (encrypted or signed) of a
+// Msg is remembered.
+const mimePGP MIMEType = "pgp"
+
 // msgWriter handles the I/O operations for writing to the io.WriteCloser of the SMTP client.
 //
 // This struct keeps track of the number of bytes written, the character set used, and the depth of the
@@ -188,13 +192,19 @@ func (mw *msgWriter) writeMsg(msg *Msg) {
 		}
 	}
 	if msg.hasPGPType() {
+		// A predefined boundary is used as is. A generated boundary is kept, like those of the other
+		// multiparts, so that later renderings of the message do not differ from the first one
+		pgpBoundary := msg.boundary
+		if pgpBoundary == "" {
+			pgpBoundary = msg.multiPartBoundary[mimePGP]
+		}
 		switch msg.pgptype {
 		case PGPEncrypt:
-			mw.startMP(`encrypted; protocol="application/pgp-encrypted"`,
-				msg.boundary)
+			msg.multiPartBoundary[mimePGP] = mw.startMP(`encrypted; protocol="application/pgp-encrypted"`,
+				pgpBoundary)
 		case PGPSignature:
-			mw.startMP(`signed; protocol="application/pgp-signature";`,
-				msg.boundary)
+			msg.multiPartBoundary[mimePGP] = mw.startMP(`signed; protocol="application/pgp-signature";`,
+				pgpBoundary)
 		default:
 		}
 		mw.writeString(DoubleNewLine)
